@@ -1,7 +1,478 @@
-//! stub
-use serde_json::Value;
-use crate::engine::Ctx;
-pub const RULE: &str = "";
-pub const ASSUMPTIONS: &[&str] = &[];
-pub fn run(_ctx: &Ctx) {}
-pub fn replay(_part: &str, _case: &Value) -> Result<(), String> { Err("not implemented".into()) }
+//! C17 — serial transport is transparent: over the wire equals directly on the bus.
+
+use std::cell::RefCell;
+use std::collections::VecDeque;
+use std::io::{self, Read, Write};
+use std::rc::Rc;
+use std::time::Duration;
+
+use flipdot::{Address, Page, PageFlipStyle, PageId, Sign};
+use flipdot_core::{Message, SignBus, SignType, State};
+use flipdot_serial::SerialSignBus;
+use flipdot_testing::{Odk, OdkError, VirtualSign, VirtualSignBus};
+use proptest::prelude::*;
+use serde::{Deserialize, Serialize};
+use serde_json::{json, Value};
+use serial_core::{PortSettings, SerialDevice};
+
+use crate::engine::{catch, h64, run_generated_n, show_bytes, Ctx, Stats};
+use crate::io::port::{weird_settings, PortState, TestPort};
+use crate::oracle::hex::{ref_decode, RefDecode};
+use crate::oracle::vsign::TYPES;
+use crate::props::c16::{any_msg_strategy, wire_of};
+use crate::repr::{ref_classify, M};
+
+pub const RULE: &str = "(A) controller level: 1..3 virtual signs (mixed flip styles) x sign type (small transfer sizes 30x7, 23x10, 30x10, 40x12 mostly, the others at a low rate) x controller address (a present sign, sometimes an absent address) x sequences of 1..8 operations (configure, configure_if_needed, send_pages with 0..2 pages of random pixels, show_loaded_page, load_next_page, shut_down, reconfigure as another type) run twice from identical virtual buses: directly, and through Sign -> SerialSignBus -> byte stream -> Odk -> virtual bus (single-threaded: the client port pumps Odk::process_message whenever a complete line has been written); every operation must succeed on one path exactly when it succeeds on the other (same flip style reported) and all virtual signs must end in the same state, type and pages. (B) bridge level: single lines injected at an Odk over a recording bus that replies / stays silent / fails: every message kind encoded, unknown frames, and invalid or damaged lines; the bus must see exactly the table interpretation of a decodable line once and nothing for an undecodable one (Communication error), the port must receive exactly the reply's frame with CRLF iff the bus replied, a bus failure must give the Bus error and write nothing. Non-trivial = (A) a sequence with >= 2 operations and >= 1 page transfer, (B) a line that decodes to a specific message or is an encoded frame with one damaged character; distinct by hash";
+pub const ASSUMPTIONS: &[&str] = &[
+    "the byte stream between the two serial ports is an in-memory pipe owned by the harness; Odk::process_message is pumped in the writer's thread when a full line has been written (no real device, no second thread)",
+    "pacing sleeps of the serial bus are real, so paced sequences run on 64 threads",
+];
+
+// ---------------------------------------------------------------------------------------
+// in-memory serial pipe
+
+type Pipe = Rc<RefCell<VecDeque<u8>>>;
+
+struct PipePort {
+    rx: Pipe,
+    tx: Pipe,
+    on_line: Option<Box<dyn FnMut()>>,
+    settings: PortSettings,
+}
+
+impl Read for PipePort {
+    fn read(&mut self, buf: &mut [u8]) -> io::Result<usize> {
+        let mut rx = self.rx.borrow_mut();
+        if rx.is_empty() {
+            // a real port would run into its read timeout
+            return Err(io::Error::new(io::ErrorKind::TimedOut, "nothing to read (timeout)"));
+        }
+        let mut n = 0;
+        while n < buf.len() {
+            match rx.pop_front() {
+                Some(b) => {
+                    buf[n] = b;
+                    n += 1;
+                }
+                None => break,
+            }
+        }
+        Ok(n)
+    }
+}
+
+impl Write for PipePort {
+    fn write(&mut self, buf: &[u8]) -> io::Result<usize> {
+        self.tx.borrow_mut().extend(buf.iter().copied());
+        let has_line = self.tx.borrow().contains(&b'\n');
+        if has_line {
+            if let Some(f) = self.on_line.as_mut() {
+                f();
+            }
+        }
+        Ok(buf.len())
+    }
+    fn flush(&mut self) -> io::Result<()> {
+        Ok(())
+    }
+}
+
+impl SerialDevice for PipePort {
+    type Settings = PortSettings;
+    fn read_settings(&self) -> serial_core::Result<PortSettings> {
+        Ok(self.settings)
+    }
+    fn write_settings(&mut self, s: &PortSettings) -> serial_core::Result<()> {
+        self.settings = *s;
+        Ok(())
+    }
+    fn timeout(&self) -> Duration {
+        Duration::from_secs(1)
+    }
+    fn set_timeout(&mut self, _: Duration) -> serial_core::Result<()> {
+        Ok(())
+    }
+    fn set_rts(&mut self, _: bool) -> serial_core::Result<()> {
+        Ok(())
+    }
+    fn set_dtr(&mut self, _: bool) -> serial_core::Result<()> {
+        Ok(())
+    }
+    fn read_cts(&mut self) -> serial_core::Result<bool> {
+        Ok(false)
+    }
+    fn read_dsr(&mut self) -> serial_core::Result<bool> {
+        Ok(false)
+    }
+    fn read_ri(&mut self) -> serial_core::Result<bool> {
+        Ok(false)
+    }
+    fn read_cd(&mut self) -> serial_core::Result<bool> {
+        Ok(false)
+    }
+}
+
+struct SharedBus(Rc<RefCell<VirtualSignBus<'static>>>);
+impl SignBus for SharedBus {
+    fn process_message<'a>(&mut self, message: Message<'_>) -> Result<Option<Message<'a>>, Box<dyn std::error::Error + Send + Sync>> {
+        self.0.borrow_mut().process_message(message)
+    }
+}
+
+// ---------------------------------------------------------------------------------------
+// (A) controller level
+
+#[derive(Serialize, Deserialize, Debug, Clone, PartialEq, Eq, Hash)]
+pub enum Op {
+    Configure,
+    ConfigureIfNeeded,
+    SendPages(Vec<u64>),
+    Show,
+    LoadNext,
+    ShutDown,
+    /// from now on the controller believes the sign is this other type, and configures it
+    Reconfigure(u8),
+}
+
+#[derive(Serialize, Deserialize, Debug, Clone, PartialEq, Eq, Hash)]
+pub struct PathCase {
+    pub signs: Vec<(u16, bool)>,
+    pub target: u16,
+    pub sign_type: u8,
+    pub ops: Vec<Op>,
+}
+
+#[derive(Debug, Clone, PartialEq, Eq)]
+enum OpResult {
+    Ok,
+    OkStyle(bool),
+    Err,
+}
+
+fn run_ops(bus: Rc<RefCell<dyn SignBus>>, c: &PathCase) -> Result<Vec<OpResult>, String> {
+    let mut t_idx = c.sign_type as usize % 11;
+    let mut sign = Sign::new(bus.clone(), Address(c.target), TYPES[t_idx].0);
+    let mut out = vec![];
+    for op in &c.ops {
+        let (_, _, _, w, h) = TYPES[t_idx];
+        let r = catch(|| match op {
+            Op::Configure => sign.configure().map(|_| OpResult::Ok),
+            Op::ConfigureIfNeeded => sign.configure_if_needed().map(|_| OpResult::Ok),
+            Op::SendPages(seeds) => {
+                let pages: Vec<Page<'static>> = seeds
+                    .iter()
+                    .enumerate()
+                    .map(|(i, s)| {
+                        let mut p = Page::new(PageId(i as u8), w, h);
+                        for x in 0..w {
+                            for y in 0..h {
+                                if h64(&(*s, x, y)) % 3 == 0 {
+                                    p.set_pixel(x, y, true);
+                                }
+                            }
+                        }
+                        p
+                    })
+                    .collect();
+                sign.send_pages(&pages).map(|s| OpResult::OkStyle(s == PageFlipStyle::Automatic))
+            }
+            Op::Show => sign.show_loaded_page().map(|_| OpResult::Ok),
+            Op::LoadNext => sign.load_next_page().map(|_| OpResult::Ok),
+            Op::ShutDown => sign.shut_down().map(|_| OpResult::Ok),
+            Op::Reconfigure(t) => {
+                t_idx = *t as usize % 11;
+                sign = Sign::new(bus.clone(), Address(c.target), TYPES[t_idx].0);
+                sign.configure().map(|_| OpResult::Ok)
+            }
+        })
+        .map_err(|p| format!("operation {op:?} panicked: {p}"))?;
+        out.push(r.unwrap_or(OpResult::Err));
+    }
+    Ok(out)
+}
+
+type Obs = Vec<(State, Option<SignType>, Vec<(u32, u32, Vec<u8>)>)>;
+
+fn observe(bus: &VirtualSignBus<'_>, n: usize) -> Obs {
+    (0..n)
+        .map(|i| {
+            let s = bus.sign(i);
+            (s.state(), s.sign_type(), s.pages().iter().map(|p| (p.width(), p.height(), p.as_bytes().to_vec())).collect())
+        })
+        .collect()
+}
+
+fn make_bus(signs: &[(u16, bool)]) -> VirtualSignBus<'static> {
+    VirtualSignBus::new(signs.iter().map(|(a, f)| VirtualSign::new(Address(*a), if *f { PageFlipStyle::Automatic } else { PageFlipStyle::Manual })))
+}
+
+pub fn check_path(c: &PathCase, st: &mut Stats) -> Result<(), String> {
+    let mut seen = std::collections::HashSet::new();
+    let signs: Vec<(u16, bool)> = c.signs.iter().filter(|(a, _)| seen.insert(*a)).cloned().collect();
+    let n = signs.len();
+    // direct path
+    let direct_bus = Rc::new(RefCell::new(make_bus(&signs)));
+    let direct = run_ops(direct_bus.clone(), c)?;
+    let direct_obs = observe(&direct_bus.borrow(), n);
+
+    // serial path
+    let vbus = Rc::new(RefCell::new(make_bus(&signs)));
+    let to_server: Pipe = Rc::new(RefCell::new(VecDeque::new()));
+    let to_client: Pipe = Rc::new(RefCell::new(VecDeque::new()));
+    let server_port = PipePort { rx: to_server.clone(), tx: to_client.clone(), on_line: None, settings: weird_settings() };
+    let odk = Odk::try_new(server_port, SharedBus(vbus.clone())).map_err(|e| format!("Odk::try_new failed: {e}"))?;
+    let odk = Rc::new(RefCell::new(odk));
+    let odk_errors: Rc<RefCell<Vec<String>>> = Rc::new(RefCell::new(vec![]));
+    let pump = {
+        let odk = odk.clone();
+        let errs = odk_errors.clone();
+        let to_server = to_server.clone();
+        move || {
+            // one process_message per complete line that is waiting
+            let mut guard = 0;
+            while to_server.borrow().contains(&b'\n') && guard < 8 {
+                guard += 1;
+                if let Err(e) = odk.borrow_mut().process_message() {
+                    errs.borrow_mut().push(format!("{e:?}"));
+                }
+            }
+        }
+    };
+    let client_port = PipePort { rx: to_client.clone(), tx: to_server.clone(), on_line: Some(Box::new(pump)), settings: weird_settings() };
+    let sbus = SerialSignBus::try_new(client_port).map_err(|e| format!("SerialSignBus::try_new failed: {e}"))?;
+    let serial = run_ops(Rc::new(RefCell::new(sbus)), c)?;
+    let serial_obs = observe(&vbus.borrow(), n);
+    st.eval();
+
+    for (i, (d, s)) in direct.iter().zip(serial.iter()).enumerate() {
+        if d != s {
+            return Err(format!(
+                "operation {i} ({:?}): directly on the bus -> {d:?}, over the serial path -> {s:?} (bridge errors: {:?})",
+                c.ops[i],
+                odk_errors.borrow()
+            ));
+        }
+    }
+    if direct_obs != serial_obs {
+        let k = (0..n).find(|&k| direct_obs[k] != serial_obs[k]).unwrap();
+        return Err(format!(
+            "after {:?} sign {:#x} differs: direct {:?}/{:?}/{} pages, serial {:?}/{:?}/{} pages",
+            c.ops,
+            signs[k].0,
+            direct_obs[k].0,
+            direct_obs[k].1,
+            direct_obs[k].2.len(),
+            serial_obs[k].0,
+            serial_obs[k].1,
+            serial_obs[k].2.len()
+        ));
+    }
+    let transfers = c.ops.iter().filter(|o| matches!(o, Op::SendPages(p) if !p.is_empty())).count();
+    let succeeded = direct.iter().filter(|r| **r != OpResult::Err).count();
+    if c.ops.len() >= 2 && transfers >= 1 {
+        st.nontrivial(h64(c));
+        st.class("path:>=2-ops-with-page-transfer");
+    } else {
+        st.class("path:other");
+    }
+    st.class_n("path:operations-succeeded", succeeded as u64);
+    st.class_n("path:operations-failed-on-both-paths", (direct.len() - succeeded) as u64);
+    if st.want_sample() && transfers >= 1 && succeeded >= 2 {
+        st.sample(json!({"signs": signs, "target": c.target, "type": format!("{:?}", TYPES[c.sign_type as usize % 11].0), "ops": format!("{:?}", c.ops), "results": format!("{direct:?}")}));
+    }
+    Ok(())
+}
+
+// ---------------------------------------------------------------------------------------
+// (B) bridge level
+
+#[derive(Serialize, Deserialize, Debug, Clone, PartialEq, Eq, Hash)]
+pub enum BusBehaviour {
+    Reply(M),
+    Silent,
+    Fail,
+}
+
+#[derive(Serialize, Deserialize, Debug, Clone, PartialEq, Eq, Hash)]
+pub struct BridgeCase {
+    /// the line as it arrives (without terminator)
+    pub line: Vec<u8>,
+    pub crlf: bool,
+    pub trailing: Vec<u8>,
+    pub bus: BusBehaviour,
+}
+
+struct RecBus {
+    seen: Rc<RefCell<Vec<M>>>,
+    behaviour: BusBehaviour,
+}
+impl SignBus for RecBus {
+    fn process_message<'a>(&mut self, message: Message<'_>) -> Result<Option<Message<'a>>, Box<dyn std::error::Error + Send + Sync>> {
+        self.seen.borrow_mut().push(M::from_message(&message));
+        match &self.behaviour {
+            BusBehaviour::Reply(m) => Ok(Some(m.to_message())),
+            BusBehaviour::Silent => Ok(None),
+            BusBehaviour::Fail => Err("injected bus failure".into()),
+        }
+    }
+}
+
+pub fn check_bridge(c: &BridgeCase, st: &mut Stats) -> Result<(), String> {
+    let mut tape: Vec<u8> = c.line.iter().copied().filter(|&b| b != b'\n').collect();
+    tape.extend_from_slice(if c.crlf { b"\r\n" } else { b"\n" });
+    let line_end = tape.len();
+    tape.extend_from_slice(&c.trailing);
+    let port = TestPort::with_state(PortState::new(tape.clone()));
+    let h = port.handle();
+    let seen = Rc::new(RefCell::new(vec![]));
+    let mut odk = Odk::try_new(port, RecBus { seen: seen.clone(), behaviour: c.bus.clone() }).map_err(|e| format!("Odk::try_new failed: {e}"))?;
+    let r = catch(|| odk.process_message()).map_err(|p| format!("Odk::process_message panicked on {}: {p}", show_bytes(&tape)))?;
+    st.eval();
+    let s = h.borrow();
+    let seen = seen.borrow();
+    let line = &tape[..line_end];
+    if s.pos != line_end {
+        return Err(format!("the bridge consumed {} bytes of {} but one line ends at {line_end}", s.pos, show_bytes(&tape)));
+    }
+    match ref_decode(line) {
+        RefDecode::Ok { addr, ty, data } => {
+            let want = ref_classify(addr, ty, &data);
+            if seen.len() != 1 || seen[0] != want {
+                return Err(format!(
+                    "line {} decodes to {} but the bus saw {:?}",
+                    show_bytes(line),
+                    want.short(),
+                    seen.iter().map(|m| m.short()).collect::<Vec<_>>()
+                ));
+            }
+            match &c.bus {
+                BusBehaviour::Reply(m) => {
+                    let mut w = wire_of(m);
+                    w.extend_from_slice(b"\r\n");
+                    if r.is_err() {
+                        return Err(format!("the bus replied {} but the bridge returned {r:?}", m.short()));
+                    }
+                    if s.written != w {
+                        return Err(format!(
+                            "the bus replied {} but the bridge wrote {} instead of {}",
+                            m.short(),
+                            show_bytes(&s.written),
+                            show_bytes(&w)
+                        ));
+                    }
+                }
+                BusBehaviour::Silent => {
+                    if r.is_err() || !s.written.is_empty() {
+                        return Err(format!("the bus did not reply but the bridge returned {r:?} / wrote {}", show_bytes(&s.written)));
+                    }
+                }
+                BusBehaviour::Fail => {
+                    if !matches!(r, Err(OdkError::Bus { .. })) {
+                        return Err(format!("the bus failed but the bridge returned {r:?}"));
+                    }
+                    if !s.written.is_empty() {
+                        return Err(format!("the bus failed but the bridge wrote {}", show_bytes(&s.written)));
+                    }
+                }
+            }
+            if !want.is_unknown() {
+                st.nontrivial(h64(c));
+                st.class("bridge:specific-message");
+            } else {
+                st.class("bridge:unknown-frame");
+            }
+        }
+        _ => {
+            if !matches!(r, Err(OdkError::Communication { .. })) {
+                return Err(format!("line {} cannot be decoded but the bridge returned {r:?}", show_bytes(line)));
+            }
+            if !seen.is_empty() {
+                return Err(format!("line {} cannot be decoded but the bus saw {:?}", show_bytes(line), seen.iter().map(|m| m.short()).collect::<Vec<_>>()));
+            }
+            if !s.written.is_empty() {
+                return Err(format!("line {} cannot be decoded but the bridge wrote {}", show_bytes(line), show_bytes(&s.written)));
+            }
+            st.class("bridge:undecodable-line");
+            if line.first() == Some(&b':') && line.len() >= 11 {
+                st.nontrivial(h64(c));
+            }
+        }
+    }
+    if st.want_sample() && matches!(c.bus, BusBehaviour::Reply(_)) {
+        st.sample(json!({"line": show_bytes(line), "bus": format!("{:?}", c.bus), "result": format!("{r:?}"), "written": show_bytes(&s.written)}));
+    }
+    Ok(())
+}
+
+// ---------------------------------------------------------------------------------------
+
+fn path_strategy() -> impl Strategy<Value = PathCase> {
+    let ty = prop_oneof![10 => proptest::sample::select(vec![5u8, 4, 3, 10]), 1 => 0u8..11];
+    (proptest::sample::subsequence(vec![3u16, 4, 0x0300, 0xFFFF, 0], 1..=3), ty, any::<u16>())
+        .prop_flat_map(|(addrs, sign_type, sel)| {
+            let n = addrs.len();
+            // target: mostly a present sign, sometimes nobody
+            let mut targets = addrs.clone();
+            targets.extend(addrs.clone());
+            targets.extend(addrs.clone());
+            targets.push(0x0077);
+            let target = targets[crate::engine::pick_idx(sel, targets.len())];
+            let op = prop_oneof![
+                4 => Just(Op::Configure),
+                2 => Just(Op::ConfigureIfNeeded),
+                5 => proptest::collection::vec(any::<u64>(), 0..=2).prop_map(Op::SendPages),
+                3 => Just(Op::Show),
+                3 => Just(Op::LoadNext),
+                1 => Just(Op::ShutDown),
+                1 => proptest::sample::select(vec![5u8, 4, 3, 10]).prop_map(Op::Reconfigure),
+            ];
+            (Just(addrs), proptest::collection::vec(any::<bool>(), n), Just(target), Just(sign_type), proptest::collection::vec(op, 1..=8))
+        })
+        .prop_map(|(addrs, flips, target, sign_type, mut ops)| {
+            // most sequences start by configuring, otherwise nearly everything fails on both paths
+            if !matches!(ops[0], Op::Configure | Op::ConfigureIfNeeded) && target != 0x0077 && ops.len() % 4 != 0 {
+                ops.insert(0, Op::Configure);
+                ops.truncate(8);
+            }
+            PathCase { signs: addrs.into_iter().zip(flips).collect(), target, sign_type, ops }
+        })
+}
+
+fn bridge_strategy() -> impl Strategy<Value = BridgeCase> {
+    let line = prop_oneof![
+        8 => any_msg_strategy().prop_map(|m| wire_of(&m)),
+        // one damaged character in an encoded frame
+        3 => (any_msg_strategy(), any::<u16>(), proptest::sample::select(b"0123456789ABCDEFabcdef:G\r ".to_vec())).prop_map(|(m, sel, ch)| {
+            let mut w = wire_of(&m);
+            let i = crate::engine::pick_idx(sel, w.len());
+            w[i] = ch;
+            w
+        }),
+        1 => (any_msg_strategy(), any::<u16>()).prop_map(|(m, sel)| { let mut w = wire_of(&m); let i = crate::engine::pick_idx(sel, w.len()); w.remove(i); w }),
+        1 => any_msg_strategy().prop_map(|m| wire_of(&m).to_ascii_lowercase()),
+        1 => proptest::collection::vec(any::<u8>(), 0..24),
+        1 => Just(vec![]),
+    ];
+    let bus = prop_oneof![
+        4 => any_msg_strategy().prop_map(BusBehaviour::Reply),
+        3 => Just(BusBehaviour::Silent),
+        2 => Just(BusBehaviour::Fail),
+    ];
+    (line, prop_oneof![5 => Just(true), 1 => Just(false)], prop_oneof![3 => Just(vec![]), 1 => proptest::collection::vec(any::<u8>(), 0..6)], bus)
+        .prop_map(|(line, crlf, trailing, bus)| BridgeCase { line, crlf, trailing, bus })
+}
+
+pub fn run(ctx: &Ctx) {
+    run_generated_n(ctx, "bridge", ctx.tier.pick(200_000, 3_000_000), ctx.workers, bridge_strategy, |c, st| check_bridge(c, st));
+    crate::engine::run_generated_opts(ctx, "serial-path", ctx.tier.pick(3_000, 60_000), 64, 150, path_strategy, |c, st| check_path(c, st));
+}
+
+pub fn replay(part: &str, case: &Value) -> Result<(), String> {
+    let mut st = Stats::new();
+    if part == "bridge" {
+        let c: BridgeCase = serde_json::from_value(case.clone()).map_err(|e| format!("bad case: {e}"))?;
+        return check_bridge(&c, &mut st);
+    }
+    let c: PathCase = serde_json::from_value(case.clone()).map_err(|e| format!("bad case: {e}"))?;
+    check_path(&c, &mut st)
+}
